@@ -1128,9 +1128,11 @@ tp_shutdown(tp_p tp) {
 	if (0 != __atomic_fetch_add(&tp->shutdown, 1, __ATOMIC_SEQ_CST))
 		return;
 	/* Private virtual thread. */
-	tp->pvt->state = TP_THREAD_STATE_STOP;
-	if (NULL != tp->s.tpt_on_stop) {
-		tp->s.tpt_on_stop(tp->pvt);
+	if (TP_THREAD_STATE_RUNNING == tp->pvt->state) { /* Started by tp_create(). */
+		tp->pvt->state = TP_THREAD_STATE_STOP;
+		if (NULL != tp->s.tpt_on_stop) {
+			tp->s.tpt_on_stop(tp->pvt);
+		}
 	}
 	/* Shutdown threads. */
 	for (size_t i = 0; i < tp->s.threads_max; i ++) {
